@@ -1328,7 +1328,9 @@ impl World {
                     0 => (self.rng.bytes(32).try_into().unwrap(), tip.id + 1),
                     1 => (tip.hash, tip.id),
                     2 => (self.rng.bytes(32).try_into().unwrap(), 0),
-                    _ => (self.rng.bytes(32).try_into().unwrap(), u64::MAX),
+                    3 => (self.rng.bytes(32).try_into().unwrap(), u64::MAX),
+                    // announcement floods: a fresh hash at height 1000 + k
+                    k => (self.rng.bytes(32).try_into().unwrap(), 1000 + *k as u64),
                 };
                 Message::BlockHeaderHash(h, id).serialize()
             }
@@ -2373,6 +2375,42 @@ pub fn cases(seed: u64, tier: &str) -> Vec<Case> {
         }
         for chunk in groups.chunks(40) {
             v.push(Case { mode: 0, evs: chunk.iter().flatten().cloned().collect(), origin: "boundary-sweep" });
+        }
+        // (g) announcement floods: a handshaken peer announces more blocks than one fetch batch (10) and serves none of them;
+        //     the ids come ascending, descending, with late lower ids, repeated, and from two peers; the fetch scheduler runs
+        //     on every further announcement (also an honest peer's), on fetched blocks and on the timer
+        {
+            let ann = |p: u64, k: u64| -> Vec<Ev> { vec![Ev::Msg { from: p, m: MsgC::HeaderHash(k as u8) }] };
+            let honest = || -> Vec<Ev> { vec![Ev::Msg { from: P_HONEST, m: MsgC::HeaderHash(0) }, Ev::Tick] };
+            let mut floods: Vec<(&'static str, Vec<(u64, u64)>)> = vec![];
+            // ascending beyond the batch, then one / several lower heights (k = height - 1000, 4..=255)
+            let asc: Vec<(u64, u64)> = (100..120u64).map(|i| (P_ATT, i)).collect();
+            let mut a1 = asc.clone();
+            a1.push((P_ATT, 50));
+            floods.push(("ascending-then-one-lower", a1));
+            let mut a2 = asc.clone();
+            a2.extend([(P_ATT, 50), (P_ATT, 40), (P_ATT, 30), (P_ATT, 20)]);
+            floods.push(("ascending-then-descending-lower", a2));
+            floods.push(("descending", (100..125u64).rev().map(|i| (P_ATT, i)).collect()));
+            floods.push(("alternating", (0..24u64).map(|i| (P_ATT, if i % 2 == 0 { 200 + i } else { 200 - i })).collect()));
+            floods.push(("same-height-siblings", (0..24u64).map(|i| (P_ATT, 60 + i / 3)).collect()));
+            floods.push(("exactly-one-batch-then-lower", (100..110u64).map(|i| (P_ATT, i)).chain([(P_ATT, 99), (P_ATT, 98)]).collect()));
+            floods.push(("two-peers-interleaved", (0..30u64).map(|i| (if i % 2 == 0 { P_ATT } else { P_ATT2 }, if i < 22 { 140 + i } else { 130 - i })).collect()));
+            for (_name, seq) in floods {
+                let mut g = vec![Ev::Connect { p: P_ATT }, hs(P_ATT, K_ATT), Ev::Connect { p: P_ATT2 }, hs(P_ATT2, K_ATT_OTHER)];
+                for (k, (p, id)) in seq.iter().enumerate() {
+                    g.extend(ann(*p, *id));
+                    if k % 7 == 6 {
+                        g.push(Ev::Tick);
+                    }
+                }
+                g.extend(honest());
+                g.extend(ann(P_ATT, 4));
+                g.extend(honest());
+                g.extend([Ev::Fetched { from: P_HONEST, b: BlkC::Next }, Ev::RunV, Ev::RunC, Ev::Tick]);
+                g.extend(honest());
+                v.push(Case { mode: 0, evs: g, origin: "announcement-flood" });
+            }
         }
     }
     // the same side branch when the main chain has grown meanwhile: no reorganisation, no stall
